@@ -40,8 +40,6 @@ def size_class(tags, mode, st, p):
         return c
     form = tags.get("form", "")
     if st[0] == "mn":
-        if st[1] == "INT" and tags.get("imm") == 3:
-            return "C03-int3-size"
         if st[1] == "PUSH" and "imm" in form:
             return "C03-push-imm-size"
         if st[1] == "IMUL" and "imm" in form:
